@@ -176,6 +176,20 @@ func (c *child) taskOf(id int) *modules.Task {
 	return c.tasks[id]
 }
 
+// launchedByPrep reports whether the prep routine of the module starts the work item.
+func (c *child) launchedByPrep(mod string, id int) bool {
+	for i := range c.sc.Modules {
+		if m := &c.sc.Modules[i]; m.Name == mod {
+			for _, x := range m.Prep.Launch {
+				if x == id {
+					return true
+				}
+			}
+		}
+	}
+	return false
+}
+
 // workFn builds the function body of a work item.
 func (c *child) workFn(mod string, w *Work) func(ctx context.Context) error {
 	return func(ctx context.Context) error {
@@ -195,6 +209,14 @@ func (c *child) workFn(mod string, w *Work) func(ctx context.Context) error {
 				t.Queue()
 			}
 			return nil
+		}
+		if w.Kind == "service" && n == 1 && c.launchedByPrep(mod, w.ID) {
+			// a service worker started by the prep routine: its first run is through only when the module is online (the
+			// start of a module cancels the context its earlier workers were given; what a worker that fails before
+			// its module has started is owed is not a matter of C06)
+			for d := time.Now().Add(20 * time.Second); !c.mods[mod].Online() && time.Now().Before(d); {
+				time.Sleep(100 * time.Microsecond)
+			}
 		}
 		if w.QueueInside && int(n)-w.Requeue == 1 {
 			if t := c.taskOf(w.ID); t != nil {
